@@ -578,6 +578,10 @@ class _ScipyLA(object):
 
     @staticmethod
     def norm(x, ord=None):
+        # scipy.linalg.norm has check_finite=True (numpy.linalg.norm has not)
+        x = arr.asarr(x)
+        if not bool(np.all(np.isfinite(x))):
+            raise ValueError("array must not contain infs or NaNs")
         return _Linalg.norm(x, ord)
 
     @staticmethod
